@@ -8,16 +8,13 @@ library's own lookups.
 """
 from __future__ import annotations
 
-import copy
-import itertools
 import random
-import time
-from typing import Any, Dict, List, Optional, Tuple
+from typing import Any, Dict, List, Tuple
 
 from lib.bounded import BObl
 from spec.gen import random_model
 from spec.model import normalize
-from spec.surface import surface, surface_ex, SurfaceError
+from spec.surface import surface, SurfaceError
 from bounded.c01 import parse_real, minimize_model
 
 # spelling decisions left free for C05 (everything else in documentation spelling, so that the known
@@ -36,7 +33,7 @@ def _is_in(x, lst) -> int:
 
 def link_failures(db, m: Dict[str, Any]) -> List[Tuple[str, str]]:
     """Every violated clause of C05 as (key, message)."""
-    from pydbml.classes import Column, Enum, Table
+    from pydbml.classes import Column
     from pydbml.renderer.sql.default.table import get_references_for_sql
     out: List[Tuple[str, str]] = []
 
